@@ -2,7 +2,9 @@ package main
 
 import (
 	"fmt"
+	"net/http"
 	"strings"
+	"time"
 
 	"verif/harness/internal/prng"
 	"verif/harness/internal/proto"
@@ -225,14 +227,18 @@ func genThrottle(r *prng.R, n int) []string {
 	t0 := t0base + prng.Pick(r, subSecond)
 	ty := prng.Pick(r, []string{"rel", "rel", "rel", "abs", "abs", "undef"})
 	sts := prng.Pick(r, []string{"429", "429,503", "429,503", ""})
-	hdr := prng.Pick(r, []string{"Retry-After", "X-RA"})
+	hdr := prng.Pick(r, []string{"Retry-After", "Retry-After", "retry-after", "X-RA", "x-ra"})
+	// names under which the header may arrive: the configured one, its lower/upper-case forms, the canonical form
+	arriving := []string{hdr, strings.ToLower(hdr), strings.ToUpper(hdr), http.CanonicalHeaderKey(hdr)}
+	caseMix := r.Chance(60)
 	tl := &timeline{r: r, now: t0, ops: []string{fmt.Sprintf("cfg throttle t0=%d type=%s statuses=%s hdr=%s", t0, ty, proto.Enc(sts), hdr)}}
 	methods := []string{"GET", "POST"}
 	urls := []string{"a.com/x", "a.com/y"}
 	if r.Chance(50) {
 		methods, urls = methods[:1], urls[:1]
 	}
-	relVals := []string{"1", "1", "2", "0.5", "1.5", "0.125", ".25", "0", "-1", "abc", "", "1s", "%n", "+1", "3."}
+	relVals := []string{"1", "1", "2", "0.5", "1.5", "0.125", ".25", "0", "-1", "abc", "", "1s", "%n", "+1", "3.", "100000",
+		"Tue, 14 Nov 2023", "14 Nov 2023 22:13:21 GMT", "DATE", "DATE", "DATE"}
 	rid := 0
 	for len(tl.ops) <= n {
 		key := fmt.Sprintf("m=%s u=%s pp=%%e", prng.Pick(r, methods), proto.Enc(prng.Pick(r, urls)))
@@ -252,6 +258,12 @@ func genThrottle(r *prng.R, n int) []string {
 				tl.mark(inst + tl.now%1_000_000_000)
 			} else {
 				ra = prng.Pick(r, relVals)
+				if ra == "DATE" {
+					// an HTTP-date (IMF-fixdate) a few seconds around now: RFC 9110's second form of Retry-After
+					sec := tl.now/1_000_000_000 + int64(r.Range(-2, 4))
+					ra = time.Unix(sec, 0).UTC().Format(http.TimeFormat)
+					tl.mark(sec * 1_000_000_000)
+				}
 				if f, ok := dyadic[ra]; ok {
 					tl.mark(tl.now + f)
 				}
@@ -263,8 +275,15 @@ func genThrottle(r *prng.R, n int) []string {
 			if r.Chance(70) {
 				tag = fmt.Sprintf("t%d", rid)
 			}
-			tl.ops = append(tl.ops, fmt.Sprintf("resp %s id=r%d st=%d body=%s tag=%s ra=%s", key, rid,
-				prng.Pick(r, []int{429, 429, 429, 503, 200}), proto.Enc(fmt.Sprintf("slow down %d", rid)), tag, ra))
+			extra := ""
+			if caseMix && r.Chance(50) {
+				extra += " hn=" + prng.Pick(r, arriving)
+			}
+			if caseMix && r.Chance(35) {
+				extra += " via=wire"
+			}
+			tl.ops = append(tl.ops, fmt.Sprintf("resp %s id=r%d st=%d body=%s tag=%s ra=%s%s", key, rid,
+				prng.Pick(r, []int{429, 429, 429, 503, 200}), proto.Enc(fmt.Sprintf("slow down %d", rid)), tag, ra, extra))
 		case x < 62:
 			tl.ops = append(tl.ops, "req "+key)
 		case x < 84:
